@@ -547,6 +547,14 @@ func (e *Env) evalCall(t *Term) Val {
 	case "math.Sincos":
 		s, c := math.Sincos(f(0))
 		return Val{K: TTuple, T: []Val{F(s), F(c)}}
+	case "strings.HasSuffix":
+		if len(vs) == 2 && vs[0].K == TString && vs[1].K == TString {
+			return Val{K: TBool, B: strings.HasSuffix(vs[0].S, vs[1].S)}
+		}
+	case "strings.HasPrefix":
+		if len(vs) == 2 && vs[0].K == TString && vs[1].K == TString {
+			return Val{K: TBool, B: strings.HasPrefix(vs[0].S, vs[1].S)}
+		}
 	case "fmt.Errorf", "errors.New":
 		return Val{K: TRef, R: 0xE44}
 	case "math.Erfc", "math.Erf", "math.Exp", "math.Gamma":
